@@ -14,6 +14,7 @@ import (
 	"os"
 	"runtime"
 	"sync"
+	"time"
 
 	"verifharness/internal/ev"
 )
@@ -35,6 +36,9 @@ func main() {
 		r.Finish()
 	}
 
+	phases := map[string]float64{}
+	t0 := time.Now()
+	lap := func(name string) { phases[name] = time.Since(t0).Seconds(); t0 = time.Now() }
 	// ---- layer 1: random multisets -----------------------------------------------------------
 	nCases := r.Pick(4000, 40000)
 	workers := runtime.NumCPU()
@@ -57,6 +61,7 @@ func main() {
 	}
 	close(jobs)
 	wg.Wait()
+	lap("random_multisets")
 
 	// ---- layer 1: small scope, every sequence ---------------------------------------------------
 	L := r.Pick(4, 5)
@@ -66,6 +71,7 @@ func main() {
 		go func(first int) { defer wg2.Done(); runSmallScope(r, L, first) }(first)
 	}
 	wg2.Wait()
+	lap("small_scope")
 	r.Extra("exhaustive_parts", map[string]any{
 		"every_permutation_for_multisets_up_to": exhaustiveUpTo,
 		"multisets_delivered_in_every_permutation": r.Get("multisets_delivered_in_every_permutation"),
@@ -79,12 +85,15 @@ func main() {
 	r.Extra("race_detector", raceOn)
 	collectRaces(r, "concurrent update/copy/shardInfo/LocalState/MergeRemoteState on one view")
 
+	lap("concurrent")
 	// ---- layer 2: live cluster ----------------------------------------------------------------------
-	liveRuns, transfers := r.Pick(1, 6), r.Pick(10, 40)
+	liveRuns, transfers := r.Pick(1, 6), r.Pick(40, 120)
 	for i := 0; i < liveRuns; i++ {
 		runLive(r, r.Seed*9_000_011+int64(i), transfers)
 	}
 	collectRaces(r, "live 3-node cluster with leader transfers")
+	lap("live")
+	r.Extra("phase_seconds", phases)
 
 	r.FloorNontrivial(int64(r.Pick(300, 3000)))
 	r.FloorCount("deliveries", int64(r.Pick(150_000, 1_800_000)))
